@@ -392,10 +392,25 @@ package dawn
 
 // loadModule: a module is executed only by the call that created and registered it; every other
 // caller announces the edge it is about to wait on and then waits.
-//@ func (*dawn.module).load
-//@   trusted
-//@   requires m != nil
+// load announces the execution (the ghost counter n_modload counts ModuleLoading events) and, on
+// EVERY return - also when the module's environment cannot be set up - has published the module as
+// loaded, with its error: a module that is registered but never published blocks every other
+// goroutine that loads it, forever.
+//@ func (dawn.Events).ModuleLoading
 //@   ensures n_modload == old(n_modload) + 1
+//@   modifies heap, n_modload
+//@ func (dawn.Events).ModuleLoaded
+//@   modifies heap
+//@ func (dawn.Events).ModuleLoadFailed
+//@   modifies heap
+//@ func (*dawn.module).env
+//@   trusted
+//@   modifies heap
+//@ func (*dawn.module).load
+//@   requires m != nil && proj != nil
+//@   requires not-holding: forall x: *dawn.module :: !holds(x.m)
+//@   ensures n_modload == old(n_modload) + 1
+//@   ensures published-on-every-return: m.loaded
 //@   modifies heap, n_modload, announced
 //@ func (*dawn.Project).loadModule
 //@   uses (*label.Label).String variant function-of-fields
